@@ -234,8 +234,8 @@ def schedule(path: Path):
     times = []
     put_start = {i: [] for i in range(1, n + 1)}
     put_done = {i: [] for i in range(1, n + 1)}
-    get_start = {i: [] for i in range(1, n + 1)}     # [(r, t)]
-    get_done = {}
+    get_start = {i: [] for i in range(1, n + 1)}     # per store, in starting order: [start, end or None]
+    get_open = {}                                    # read -> its get in progress (a forwarded read has two gets)
     route_msgs = {}
     sent_at, deliv_at = {}, {}
     prev = s0
@@ -268,12 +268,13 @@ def schedule(path: Path):
                 put_done[i].append(t)
         # gets
         gb, ga = path.gets(prev), path.gets(st)
-        for r, at in ga.items():
-            if r not in gb:
-                get_start[at].append((r, t))
         for r in gb:
             if r not in ga:
-                get_done[r] = t
+                get_open.pop(r)[1] = t
+        for r, at in ga.items():
+            if r not in gb:
+                get_open[r] = [t, None]
+                get_start[at].append(get_open[r])
         # messages
         mb, ma = path.msgs(prev), path.msgs(st)
         for m in sorted(ma - mb, key=lambda m: (MRANK[m[0]], m[1], m[2])):
@@ -300,9 +301,13 @@ def schedule(path: Path):
                         put_done[x].append(t + sc["base_w"])
         prev = st
     tend = t + 1.0
-    sc["put"] = {str(i): [(put_done[i][k] if k < len(put_done[i]) else tend) - ts for k, ts in enumerate(put_start[i])]
+    # puts still pending when the behaviour ends finish after it, one store at a time in starting order
+    # (distinct instants: a put is "scripted extra delay + store latency", a superseded write's wait is one delay,
+    # so equal completion instants would not keep the starting order)
+    sc["put"] = {str(i): [(put_done[i][k] if k < len(put_done[i]) else tend + (k - len(put_done[i]) + 1) / 1024.0) - ts
+                          for k, ts in enumerate(put_start[i])]
                  for i in range(1, n + 1)}
-    sc["get"] = {str(i): [get_done.get(r, tend) - ts for r, ts in get_start[i]] for i in range(1, n + 1)}
+    sc["get"] = {str(i): [(te if te is not None else tend) - ts for ts, te in get_start[i]] for i in range(1, n + 1)}
     sc["net"] = {f"{a}>{b}": [deliv_at.get(m, tend) - sent_at[m] for m in ms] for (a, b), ms in route_msgs.items()}
     groups = sorted(set(times))
     for gi, gt in enumerate(groups):
@@ -550,9 +555,18 @@ def classify(world, trace, verdict, pos, cverdict, cpos=0, code_dev=()):
                 why = (f"node {node} served key {k} locally while its writes {uncommitted} were not yet applied at the "
                        f"tail (the commit of an earlier write to the key cleared the mark)")
             elif node != tail and val in during and world.sc.get("craq"):
-                key = "craq_dirty_check_before_get_latency"
-                why = (f"key {k} was clean at node {node} when the read arrived; write {val} was applied there during "
-                       f"the get latency and returned before the tail had it")
+                # applied during the get latency: did the node still carry its dirty mark when the get ended?
+                gd = [r for r in log[a:d] if r["e"] == "gd" and (r["ctx"] or {}).get("ident") == rid and r["n"] == node]
+                if gd and k not in gd[-1].get("marks", []):
+                    key = "craq_dirty_mark_is_key_set"
+                    why = (f"write {val} was applied at node {node} during the get latency of the read and its dirty mark "
+                           f"was already cleared (by the commit of an earlier write to {k}) when the get ended, "
+                           f"before the tail had it")
+                else:
+                    key = "craq_dirty_check_before_get_latency"
+                    why = (f"key {k} was clean at node {node} when the read arrived; write {val} was applied there "
+                           f"during the get latency (the key was marked dirty when the get ended) and returned before "
+                           f"the tail had it")
             else:
                 key = clause + ":unclassified"
     # a key that is an open finding only counts as that finding if the impl model with the open deviations
